@@ -478,7 +478,11 @@ def table():
                            full=lambda: dict(cooperative=True, country_id="DEU", map_name="A9", map_id=2, configuration_id=3, obstacle_behavior="T", prediction_id=[1, 2],
                                              scenario_version="2020a"),
                            alts=dict(cooperative=[lambda: True, lambda: False], country_id=[lambda: "USA"], map_name=[lambda: "B9"], map_id=[lambda: 3], configuration_id=[lambda: 4],
-                                     obstacle_behavior=[lambda: "S"], prediction_id=[lambda: [1, 3], lambda: 2], scenario_version=[lambda: "2018b"]))
+                                     obstacle_behavior=[lambda: "S"], prediction_id=[lambda: [1, 3], lambda: 2], scenario_version=[lambda: "2018b"]),
+                           # the same value written in two accepted forms (a single prediction id as a number or as a one-element list, as from_benchmark_id
+                           # yields it): whether the forms are equal is not stated, but equal objects need equal hashes
+                           either_pairs=[(dict(prediction_id=lambda: 3), dict(prediction_id=lambda: [3])), (dict(prediction_id=lambda: 1), dict(prediction_id=lambda: [1])),
+                                         (dict(prediction_id=lambda: [1, 2]), dict(prediction_id=lambda: [2, 1])), (dict(prediction_id=lambda: None), dict(prediction_id=lambda: []))])
     T["Time"] = dict(cls=_E("commonroad.common.util", "Time"), default=lambda: dict(hours=10, minutes=30), full=lambda: dict(hours=10, minutes=30, day=2, month=3, year=2020),
                      alts=dict(hours=[lambda: 11], minutes=[lambda: 31], day=[lambda: 3], month=[lambda: 4], year=[lambda: 2021]))
     T["GeoTransformation"] = dict(cls=_E("commonroad.scenario.scenario", "GeoTransformation"), default=lambda: dict(),
@@ -902,6 +906,11 @@ def run_class(name, spec, res, pairs=False):
                         kw = mkkw(); kw[p] = perm()
                         return cls(**kw)
                     _check_variant(name, p + "(list-order)", lambda: cls(**mkkw()), y_mk, None, res, {"class": name, "base": basek, "either": p, "i": pi})
+            for pi, (oa, ob) in enumerate(spec.get("either_pairs", [])):
+                def mk_with(o, mkkw=mkkw):
+                    kw = mkkw(); kw.update({k: f() for k, f in o.items()})
+                    return cls(**kw)
+                _check_variant(name, "+".join(sorted(oa)) + "(two-forms)", lambda oa=oa: mk_with(oa), lambda ob=ob: mk_with(ob), None, res, {"class": name, "base": basek, "either_pair": pi})
             if pairs and spec.get("container"):
                 items = [(p, ai, alt) for p, alts in spec.get("alts", {}).items() for ai, alt in enumerate(alts)]
                 for (p1, a1, f1), (p2, a2, f2) in itertools.combinations(items, 2):
